@@ -54,20 +54,22 @@ def heunStep (f : Field) (dt : Rat) (t0 : Nat) (i : Nat) (y : Vec) : Vec :=
   vadd y (vscale (dt / 2) (vadd k1 k2))
 
 /-- the storage loop shared by `_solve_euler` / `_solve_heun`:
-`for i in range(steps): if i % store_step == 0: state_rec[idx] = y; idx += 1; y = step(i, y)`.
-`rec` is the `np.empty((store_steps, n))` buffer: `none` = never written. -/
-def loop (step : Nat → Vec → Vec) (storeStep : Nat) :
+`for i in range(steps): if i % store_step == 0 [and idx < store_steps]: state_rec[idx] = y; idx += 1; y = step(i, y)`.
+`rec` is the `np.empty((store_steps, n))` buffer: `none` = never written.  `guarded` says whether the storage condition also
+requires `idx < store_steps` (read from the source: `Tables.storeGuarded`); without the guard a write past the record raises. -/
+def loop (guarded : Bool) (step : Nat → Vec → Vec) (storeStep : Nat) :
     (n i : Nat) → (y : Vec) → (idx : Nat) → (rec : List (Option Vec)) → Except Err (List (Option Vec))
   | 0, _, _, _, rec => .ok rec
   | n+1, i, y, idx, rec =>
     if storeStep = 0 then .error .zeroDivision
     else if i % storeStep = 0 then
-      if idx < rec.length then loop step storeStep n (i+1) (step i y) (idx+1) (rec.set idx (some y))
+      if idx < rec.length then loop guarded step storeStep n (i+1) (step i y) (idx+1) (rec.set idx (some y))
+      else if guarded then loop guarded step storeStep n (i+1) (step i y) idx rec
       else .error .indexError
-    else loop step storeStep n (i+1) (step i y) idx rec
+    else loop guarded step storeStep n (i+1) (step i y) idx rec
 
-def solve (step : Nat → Vec → Vec) (steps storeSteps storeStep : Nat) (y0 : Vec) : Except Err (List (Option Vec)) :=
-  loop step storeStep steps 0 y0 0 (List.replicate storeSteps none)
+def solve (guarded : Bool) (step : Nat → Vec → Vec) (steps storeSteps storeStep : Nat) (y0 : Vec) : Except Err (List (Option Vec)) :=
+  loop guarded step storeStep steps 0 y0 0 (List.replicate storeSteps none)
 
 /-- `k` applications of the step function, the j-th one called with counter `i + j` -/
 def iter (step : Nat → Vec → Vec) : (i k : Nat) → Vec → Vec
@@ -128,12 +130,12 @@ def runScan (kind : AxisKind) (step : Rat → Nat → Vec → Vec) (c : RunCfg) 
 
 /-- fixed-step part of `CircuitTemplate.run` for all state variables: integrate, attach the time index, apply the cutoff.
 A stored row that was never written (`none`) is garbage memory. -/
-def runFixed (kind : AxisKind) (step : Rat → Nat → Vec → Vec) (c : RunCfg) (y0 : Vec) : Except Err (List (Rat × Option Vec)) := do
+def runFixed (guarded : Bool) (kind : AxisKind) (step : Rat → Nat → Vec → Vec) (c : RunCfg) (y0 : Vec) : Except Err (List (Rat × Option Vec)) := do
   if c.dt = 0 ∨ c.dts = 0 then throw .zeroDivision
   let steps := (pyRound (c.T / c.dt)).toNat
   let storeSteps := (pyRound (c.T / c.dts)).toNat
   let storeStep := (pyRound (c.dts / c.dt)).toNat
-  let rows ← solve (step c.dt) steps storeSteps storeStep y0
+  let rows ← solve guarded (step c.dt) steps storeSteps storeStep y0
   let times := timeAxis kind c.T c.dts
   if times.length ≠ rows.length then throw .lengthMismatch     -- pandas: index length must match
   pure ((times.zip rows).filter (fun r => c.cutoff ≤ r.1))       -- `.loc[cutoff:]` on a sorted float index
